@@ -72,6 +72,7 @@ static char scratch[160] = "/var/tmp";
 static int sink_fd; static struct sockaddr_in sink_addr;
 static struct { long k; long d; } eintr[64]; static int neintr;
 static long npolls, polllimit = 400;
+static int fs_traffic, touch_no;
 
 /* ------------------------------------------------------------------ thread pool gate */
 static pthread_mutex_t gm = PTHREAD_MUTEX_INITIALIZER;
@@ -231,6 +232,15 @@ static void recv_cb(uv_udp_t* h, ssize_t n, const uv_buf_t* b, const struct sock
   (void) b; (void) a; (void) f; char s[40]; sprintf(s, " %ld", (long) n); generic_cb("recv", idof(h), s);
 }
 
+/* kernel inotify watches of the loop's inotify descriptor (fdinfo), -1 if unreadable */
+static int inotify_watches(void) {
+  if (loop.inotify_fd == -1) return 0;
+  char p[64], line[256]; snprintf(p, sizeof p, "/proc/self/fdinfo/%d", loop.inotify_fd);
+  FILE* f = fopen(p, "r"); if (!f) return -1;
+  int n = 0; while (fgets(line, sizeof line, f)) if (!strncmp(line, "inotify wd:", 11)) n++;
+  fclose(f); return n;
+}
+
 static void close_cb(uv_handle_t* h) {
   int i = idof(h);
   long g = ncb_total++;
@@ -242,6 +252,7 @@ static void close_cb(uv_handle_t* h) {
   H[i].ptr = NULL;
   free(h);
   printf("endcb\n"); obs();
+  if (H[i].kind == K_FSEVENT && fs_traffic) printf("res h%d iw=%d\n", i, inotify_watches());
 }
 
 static void req_done(const char* kind, int r, int status) {
@@ -417,6 +428,12 @@ static void exec_op(char* text0) {
       static char b[4]; uv_random_t* req = malloc(sizeof *req); int r = uv_random(&loop, req, b, sizeof b, 1, rnd_cb); free(req); RET(r);
     }
     BAD;
+  }
+  if (!strcmp(o, "touch") && nw == 1) {    /* one directory entry appears / disappears in the watched directory */
+    char p[220]; snprintf(p, sizeof p, "%s/watch/d%d", scratch, touch_no / 2);
+    fs_traffic = 1;
+    int r = (touch_no % 2 == 0) ? mkdir(p, 0700) : rmdir(p); touch_no++;
+    RET(r);
   }
   if (!strcmp(o, "cancel") && nw == 2) {
     int r = rnum(w[1]);
